@@ -353,4 +353,5 @@ def assemble(rng, types, primary, domain_tok, message_tok, types_tok=None):
     parts = [('"types"', types_tok or types_token(rng, types)), ('"primaryType"', json.dumps(primary)), ('"domain"', domain_tok),
              ('"message"', message_tok)]
     rng.shuffle(parts)
-    return "{" + ",".join("%s:%s" % p for p in parts) + "}"
+    from .gen import respell_json_strings
+    return respell_json_strings(rng, "{" + ",".join("%s:%s" % p for p in parts) + "}")
